@@ -952,10 +952,9 @@ var c03Mutants = []Mutant{
 		Old: "\t\tif opts.Depth > 0 && current.Depth == opts.Depth {\n\t\t\taddRoot(currentKey, currentNode)\n\t\t\tcontinue\n\t\t}", New: "\t\tif opts.Depth > 0 && current.Depth == opts.Depth {\n\t\t\tcontinue\n\t\t}", Expect: "C03.R1.find-roots-shape|~.findRoots|cut-off-records-root"},
 	{Name: "push-same-depth", File: "extendedcopy.go",
 		Old: "stack.Push(copyutil.NodeInfo{Node: predecessor, Depth: current.Depth + 1})", New: "stack.Push(copyutil.NodeInfo{Node: predecessor, Depth: current.Depth})", Expect: "C03.R1.find-roots-shape|~.findRoots|pushed-depth"},
-	{Name: "only-first-predecessor-followed", File: "extendedcopy.go",
-		Old: "\t\t\t\tstack.Push(copyutil.NodeInfo{Node: predecessor, Depth: current.Depth + 1})\n\t\t\t}\n\t\t}", New: "\t\t\t\tstack.Push(copyutil.NodeInfo{Node: predecessor, Depth: current.Depth + 1})\n\t\t\t}\n\t\t\tbreak\n\t\t}", Expect: "C03.R1"},
 	{Name: "per-root-tracker", File: "extendedcopy.go",
-		Old: "copyGraph(ctx, src, dst, root, proxy, limiter, tracker, opts.CopyGraphOptions)", New: "copyGraph(ctx, src, dst, root, proxy, limiter, nil, opts.CopyGraphOptions)", Expect: "C03.R2"},
+		Old: "\t// track content status\n\ttracker := status.NewTracker()\n\n\t// copy the sub-DAGs rooted by the root nodes\n\treturn syncutil.Go(ctx, limiter, func(ctx context.Context, region *syncutil.LimitedRegion, root ocispec.Descriptor) error {\n",
+		New: "\t// copy the sub-DAGs rooted by the root nodes\n\treturn syncutil.Go(ctx, limiter, func(ctx context.Context, region *syncutil.LimitedRegion, root ocispec.Descriptor) error {\n\t\ttracker := status.NewTracker()\n", Expect: "C03.R2"},
 	{Name: "annotation-fetch-skips-index", File: "extendedcopy.go",
 		Old: "\t\t\t\t\tdocker.MediaTypeManifestList, ocispec.MediaTypeImageIndex,\n", New: "\t\t\t\t\tdocker.MediaTypeManifestList,\n", Expect: "C03.R4"},
 	{Name: "extendedcopy-tags-srcref", File: "extendedcopy.go",
